@@ -9,14 +9,156 @@ def isDataLine (l : Str) : Bool :=
   | w0 :: _ => !(w0 = str "#" || w0 = str "attribute" || w0 = str "component" || w0 = str "object"
       || w0 = str "origin" || w0 = str "delta")
 
+/-! ### `splitWs` -/
+
+/-- the words already closed (`acc`) come out in front, untouched -/
+theorem splitWsAux_acc (s cur : Str) (acc : List Str) :
+    splitWsAux s cur acc = acc.reverse ++ splitWsAux s cur [] := by
+  induction s generalizing cur acc with
+  | nil =>
+    simp only [splitWsAux]
+    by_cases h : cur.isEmpty <;> simp [h]
+  | cons c cs ih =>
+    simp only [splitWsAux]
+    by_cases hc : isWs c
+    · simp only [hc, if_true]
+      rw [ih [] (if cur.isEmpty then acc else cur.reverse :: acc),
+        ih [] (if cur.isEmpty then [] else [cur.reverse])]
+      by_cases h : cur.isEmpty <;> simp [h]
+    · simp only [hc]
+      exact ih (c :: cur) acc
+
+theorem splitWsAux_append_ws (a b cur : Str) (c : Char) (hc : isWs c = true) :
+    splitWsAux (a ++ c :: b) cur [] = splitWsAux a cur [] ++ splitWs b := by
+  induction a generalizing cur with
+  | nil =>
+    simp only [List.nil_append, splitWsAux, hc, if_true, splitWs]
+    rw [splitWsAux_acc]
+  | cons x a ih =>
+    simp only [List.cons_append, splitWsAux]
+    by_cases hx : isWs x
+    · simp only [hx, if_true]
+      rw [splitWsAux_acc (a ++ c :: b), splitWsAux_acc a, ih [], List.append_assoc]
+    · simp only [hx]
+      exact ih (x :: cur)
+
+/-- a whitespace character separates: the words of `a ++ c :: b` are those of `a` then those of `b` -/
+theorem splitWs_append_ws (a b : Str) (c : Char) (hc : isWs c = true) :
+    splitWs (a ++ c :: b) = splitWs a ++ splitWs b :=
+  splitWsAux_append_ws a b [] c hc
+
+theorem splitWs_nil : splitWs [] = [] := rfl
+
+theorem splitWs_joinWith_space (c : List Str) : splitWs (joinWith [' '] c) = c.flatMap splitWs := by
+  induction c with
+  | nil => rfl
+  | cons x xs ih =>
+    cases xs with
+    | nil => simp [joinWith]
+    | cons y ys =>
+      have : joinWith [' '] (x :: y :: ys) = x ++ ' ' :: joinWith [' '] (y :: ys) := by
+        simp [joinWith]
+      rw [this, splitWs_append_ws _ _ _ (by decide), ih]
+      simp
+
+/-! ### value section -/
+
+theorem splitWs_lines (init : List (List Str)) (last : List Str) :
+    splitWs ((init.map (fun c => joinWith [' '] c ++ ['\n'])).flatten ++ joinWith [' '] last) =
+      (init ++ [last]).flatten.flatMap splitWs := by
+  induction init with
+  | nil => simp [splitWs_joinWith_space]
+  | cons c init ih =>
+    have : ((c :: init).map (fun c => joinWith [' '] c ++ ['\n'])).flatten ++ joinWith [' '] last =
+        joinWith [' '] c ++ '\n' :: ((init.map (fun c => joinWith [' '] c ++ ['\n'])).flatten ++
+          joinWith [' '] last) := by
+      simp
+    rw [this, splitWs_append_ws _ _ _ (by decide), ih, splitWs_joinWith_space]
+    simp
+
+/-- the value section re-tokenises to the tokens of the chunks, for any chunking -/
+theorem splitWs_valueLines_gen (cs : List (List Str)) :
+    splitWs (match cs.reverse with
+      | [] => []
+      | last :: revInit =>
+        (revInit.reverse.map (fun c => joinWith [' '] c ++ ['\n'])) ++ [joinWith [' '] last]).flatten =
+      cs.flatten.flatMap splitWs := by
+  generalize h : cs.reverse = r
+  cases r with
+  | nil =>
+    have : cs = [] := by simpa using h
+    subst this
+    rfl
+  | cons last revInit =>
+    have hcs : cs = revInit.reverse ++ [last] := by
+      have := congrArg List.reverse h
+      simpa using this
+    subst hcs
+    simp only [List.flatten_append, List.flatten_cons, List.flatten_nil, List.append_nil]
+    have := splitWs_lines revInit.reverse last
+    simpa using this
+
+theorem chunk6_spec (fuel : Nat) (vs : List Str) (hf : vs.length < fuel) :
+    (chunk6 fuel vs).flatten = vs ∧
+    (∀ c ∈ (chunk6 fuel vs).dropLast, c.length = 6) ∧
+    (∀ c ∈ chunk6 fuel vs, 1 ≤ c.length ∧ c.length ≤ 6) := by
+  induction fuel generalizing vs with
+  | zero => omega
+  | succ fuel ih =>
+    cases vs with
+    | nil => simp [chunk6]
+    | cons x xs =>
+      by_cases hl : (x :: xs).length ≤ 6
+      · have : chunk6 (fuel + 1) (x :: xs) = [x :: xs] := by
+          simp only [chunk6]
+          rw [if_pos hl]
+        rw [this]
+        refine ⟨by simp, by simp, ?_⟩
+        intro c hc
+        simp only [List.mem_singleton] at hc
+        subst hc
+        simp only [List.length_cons] at hl ⊢
+        omega
+      · have heq : chunk6 (fuel + 1) (x :: xs) =
+            (x :: xs).take 6 :: chunk6 fuel ((x :: xs).drop 6) := by
+          simp only [chunk6, hl, if_false]
+        have hlen : ((x :: xs).drop 6).length < fuel := by
+          simp only [List.length_drop]
+          omega
+        obtain ⟨h1, h2, h3⟩ := ih ((x :: xs).drop 6) hlen
+        have htake : ((x :: xs).take 6).length = 6 := by
+          simp only [List.length_take]
+          omega
+        rw [heq]
+        refine ⟨?_, ?_, ?_⟩
+        · rw [List.flatten_cons, h1, List.take_append_drop]
+        · intro c hc
+          cases hr : chunk6 fuel ((x :: xs).drop 6) with
+          | nil => rw [hr] at hc; simp at hc
+          | cons b l =>
+            rw [hr] at hc
+            simp only [List.dropLast_cons_cons, List.mem_cons] at hc
+            rcases hc with hc | hc
+            · rw [hc]; exact htake
+            · apply h2
+              rw [hr]
+              exact hc
+        · intro c hc
+          simp only [List.mem_cons] at hc
+          rcases hc with hc | hc
+          · rw [hc, htake]; omega
+          · exact h3 c hc
+
 theorem cube_values_core (ws : List Str) : splitWs (valueLines ws).flatten = ws.flatMap splitWs := by
-  sorry
+  have h := splitWs_valueLines_gen (chunk6 (ws.length + 1) ws)
+  rw [(chunk6_spec (ws.length + 1) ws (by omega)).1] at h
+  exact h
 
 theorem cube_six_per_line_core (ws : List Str) :
     (chunk6 (ws.length + 1) ws).flatten = ws ∧
     (∀ c ∈ (chunk6 (ws.length + 1) ws).dropLast, c.length = 6) ∧
-    (∀ c ∈ (chunk6 (ws.length + 1) ws), 1 ≤ c.length ∧ c.length ≤ 6) := by
-  sorry
+    (∀ c ∈ (chunk6 (ws.length + 1) ws), 1 ≤ c.length ∧ c.length ≤ 6) :=
+  chunk6_spec (ws.length + 1) ws (by omega)
 
 theorem cube_header_core (fF fE : PyFloat → Str) (d : DxData) (atoms : List CAtom)
     (n0 n1 n2 : Int) (o s0 s1 s2 : PyFloat × PyFloat × PyFloat) (rest : List (PyFloat × PyFloat × PyFloat))
@@ -30,16 +172,115 @@ theorem cube_header_core (fF fE : PyFloat → Str) (d : DxData) (atoms : List CA
       (atoms.map (fun a => fI4 a.serial ++ [' '] ++ fF a.charge ++ [' '] ++ fF a.x ++ [' '] ++ fF a.y
         ++ [' '] ++ fF a.z ++ ['\n'])).flatten ++
       (valueLines (d.values.map fE)).flatten) := by
-  sorry
+  obtain ⟨ox, oy, oz⟩ := o
+  obtain ⟨a0, b0, c0⟩ := s0
+  obtain ⟨a1, b1, c1⟩ := s1
+  obtain ⟨a2, b2, c2⟩ := s2
+  simp [writeCube, hc, ho, hs, bind, Except.bind, pure, Except.pure]
+
+/-! ### reader -/
+
+theorem mapM_pyFloat_ok (ws : List Str) (vs : List PyFloat) (h : ws.mapM pyFloat = .ok vs) :
+    vs = ws.filterMap parseFloat? := by
+  induction ws generalizing vs with
+  | nil =>
+    simp only [List.mapM_nil, pure, Except.pure] at h
+    cases h
+    rfl
+  | cons w ws ih =>
+    simp only [List.mapM_cons, bind, Except.bind, pure, Except.pure] at h
+    cases hw : parseFloat? w with
+    | none => simp [pyFloat, hw] at h
+    | some v =>
+      simp only [pyFloat, hw] at h
+      cases hm : ws.mapM pyFloat with
+      | error e => simp [hm] at h
+      | ok vs' =>
+        simp only [hm] at h
+        cases h
+        simp [hw, ih vs' hm]
+
+theorem dxLine_values (d d' : DxData) (l : Str) (h : dxLine d l = .ok d') :
+    d'.values = d.values ++ (if isDataLine l then (splitWs l).filterMap parseFloat? else []) := by
+  unfold dxLine at h
+  unfold isDataLine
+  cases hw : splitWs l with
+  | nil => simp [hw, word, bind, Except.bind] at h
+  | cons w0 rest =>
+    simp only [hw, word, List.drop_zero, bind, Except.bind] at h
+    by_cases h1 : (w0 = str "#" || w0 = str "attribute" || w0 = str "component") = true
+    · rw [if_pos h1] at h
+      simp only [pure, Except.pure] at h
+      cases h
+      simp only [Bool.or_eq_true, decide_eq_true_eq] at h1
+      rcases h1 with (h1 | h1) | h1 <;> simp [h1]
+    · rw [if_neg h1] at h
+      simp only [Bool.or_eq_true, decide_eq_true_eq, not_or] at h1
+      obtain ⟨⟨n1, n2⟩, n3⟩ := h1
+      by_cases h2 : w0 = str "object"
+      · rw [if_pos h2] at h
+        have hv : d'.values = d.values := by
+          simp only [pure, Except.pure] at h
+          repeat' split at h
+          all_goals first | (cases h; rfl) | (cases h)
+        simp [hv, h2]
+      · rw [if_neg h2] at h
+        by_cases h3 : w0 = str "origin"
+        · rw [if_pos h3] at h
+          cases hf : float3 (w0 :: rest) with
+          | error e => simp [hf] at h
+          | ok o =>
+            simp only [hf, pure, Except.pure] at h
+            cases h
+            simp [h3]
+        · rw [if_neg h3] at h
+          by_cases h4 : w0 = str "delta"
+          · rw [if_pos h4] at h
+            cases hf : float3 (w0 :: rest) with
+            | error e => simp [hf] at h
+            | ok o =>
+              simp only [hf, pure, Except.pure] at h
+              cases h
+              simp [h4]
+          · rw [if_neg h4] at h
+            cases hm : (w0 :: rest).mapM pyFloat with
+            | error e => simp [hm] at h
+            | ok vs =>
+              simp only [hm, pure, Except.pure] at h
+              cases h
+              have := mapM_pyFloat_ok _ _ hm
+              simp [n1, n2, n3, h2, h3, h4, this]
+
+theorem foldlM_dxLine_values (lines : List Str) (d0 d : DxData) (h : lines.foldlM dxLine d0 = .ok d) :
+    d.values = d0.values ++
+      (lines.filter isDataLine).flatMap (fun l => (splitWs l).filterMap parseFloat?) := by
+  induction lines generalizing d0 with
+  | nil =>
+    simp only [List.foldlM_nil, pure, Except.pure] at h
+    cases h
+    simp
+  | cons l lines ih =>
+    simp only [List.foldlM_cons, bind, Except.bind] at h
+    cases hl : dxLine d0 l with
+    | error e => simp [hl] at h
+    | ok d1 =>
+      simp only [hl] at h
+      rw [ih d1 h, dxLine_values d0 d1 l hl]
+      by_cases hd : isDataLine l <;> simp [hd]
 
 theorem dx_values_core (lines : List Str) (d : DxData) (h : readDx lines = .ok d) :
     d.values = (lines.filter isDataLine).flatMap (fun l => (splitWs l).filterMap parseFloat?) := by
-  sorry
+  have := foldlM_dxLine_values lines empty d h
+  simpa [empty] using this
 
 theorem dx_cube_roundtrip_core (fE : PyFloat → Str) (tok : PyFloat → Str) (lines : List Str) (d : DxData)
     (h : readDx lines = .ok d) (hE : ∀ v, splitWs (fE v) = [tok v]) :
     splitWs (valueLines (d.values.map fE)).flatten =
       ((lines.filter isDataLine).flatMap (fun l => (splitWs l).filterMap parseFloat?)).map tok := by
-  sorry
+  rw [cube_values_core, ← dx_values_core lines d h]
+  generalize d.values = vs
+  induction vs with
+  | nil => rfl
+  | cons v vs ih => simp [List.flatMap_cons, hE, ih]
 
 end P2P.Proofs.Dx
